@@ -83,6 +83,19 @@ CHECKS = {
         design_ref="DESIGN.md section 3 C24, section 8",
         technique="typed call-site enumeration; iterator data-flow classification; CFG separation (sort before sink)",
     ),
+    "C25": dict(
+        category="other",
+        text="Decides (a) the at-most-once and order structure of CmdBuild::sort_filelist: every PathSet pushed into the result is taken "
+             "out of a map keyed by source path by remove/into_values, maps are refilled only with extracted values, the first segment follows "
+             "type_dag::toposort() front to back, the remainder is sorted by src before it is appended; (b) injectivity by construction of "
+             "Metadata::paths: every definition of PathSet.dst/.map is examined per Target/SourceMapTarget arm for lossy steps (file_name) or a "
+             "strip_prefix whose base changes inside the loop over source directories without a collision check. Four arms fail (b) today; "
+             "each was shown against the built binary (findings/F3_output_path_collisions.sh) and is listed as a known finding (F3a-d), any "
+             "other arm or a different lossy step is still reported. It does not decide completeness of the filelist nor the dependency order "
+             "for all projects.",
+        design_ref="DESIGN.md section 3 C25, section 8.4k",
+        technique="provenance of pushed values (linear extraction); CFG ordering; per-arm provenance scan for lossy / loop-variant path steps",
+    ),
     "C26": dict(
         category="other",
         text="Decides the option-flow clause: every read of strip_comments, newline_style, indent_width, max_width and vertical_align in the "
